@@ -27,6 +27,8 @@ pub mod msp_ops;
 #[cfg(kani)]
 pub mod step_ops;
 #[cfg(kani)]
+pub mod filter_ops;
+#[cfg(kani)]
 pub mod stubs;
 #[cfg(kani)]
 pub mod gen;
